@@ -466,6 +466,8 @@ impl Scenario for IncScn {
                     v.push(IAct::ExpandFlow { id: *id, amount: 777, funds: "exact".into(), by: MALLORY.into() });
                     // "@end": the expansion names the flow's current end epoch explicitly instead of leaving it open
                     v.push(IAct::ExpandFlow { id: *id, amount: 5000, funds: "exact@end".into(), by: f.creator.clone() });
+                    // "@far": the expansion moves the end more than 180 epochs past the start (the flow is re-based)
+                    v.push(IAct::ExpandFlow { id: *id, amount: 4000, funds: "exact@far".into(), by: f.creator.clone() });
                     v.push(IAct::CloseFlow { id: *id, by: f.creator.clone() });
                     v.push(IAct::CloseFlow { id: *id, by: OWNER.into() });
                     v.push(IAct::CloseFlow { id: *id, by: MALLORY.into() });
@@ -875,7 +877,13 @@ impl Scenario for IncScn {
                 };
                 let ib = bal(w, &h.reward, &h.incentive);
                 let before = flows_of(w, h).iter().find(|f| f.flow_id == *id).map(flow_amount);
-                let end_epoch = if funds.ends_with("@end") { flows_of(w, h).iter().find(|f| f.flow_id == *id).map(|f| f.end_epoch) } else { None };
+                let end_epoch = if funds.ends_with("@end") {
+                    flows_of(w, h).iter().find(|f| f.flow_id == *id).map(|f| f.end_epoch)
+                } else if funds.ends_with("@far") {
+                    flows_of(w, h).iter().find(|f| f.flow_id == *id).map(|f| f.start_epoch + 190)
+                } else {
+                    None
+                };
                 let r = inc_exec(w, h, by, &IncExec::ExpandFlow { flow_identifier: FlowIdentifier::Id(*id), end_epoch, flow_asset: asset(&h.reward, amt) }, &coins);
                 match &r {
                     Ok(_) => {
@@ -883,7 +891,7 @@ impl Scenario for IncScn {
                         let received = bal(w, &h.reward, &h.incentive) - ib;
                         if c12 {
                             let after = flows_of(w, h).iter().find(|f| f.flow_id == *id).map(flow_amount);
-                            cx.check("expand_flow.funded_amount_grows_by_tokens_received", after.zip(before).map(|(x, y)| x - y) == Some(received), || {
+                            cx.check("expand_flow.funded_amount_grows_by_tokens_received", after.zip(before).map(|(x, y)| x == y + received) == Some(true), || {
                                 format!("ExpandFlow {} by {}: contract received {} but the flow amount went {:?} -> {:?}", id, amt, received, before, after)
                             });
                         }
